@@ -713,11 +713,67 @@ func c04(c *Ctx) {
 
 	// R8 index-map pairing in the de-duplication code
 	c.Rule("R8", "E3 pairing", "de-duplication index maps record len(slice) − 1 right after the append they index (dedupeAttrsFromRecord, addOverCapAttrs)", 2)
-	for _, nm := range []string{"(*recordingSpan).dedupeAttrsFromRecord", "(*recordingSpan).addOverCapAttrs"} {
-		fn := c.Fn(ix, "R8", nm)
+	isIndexStore := func(n ast.Node) bool {
+		as, ok := n.(*ast.AssignStmt)
+		if !ok || len(as.Lhs) != 1 {
+			return false
+		}
+		ie, ok := unparen(as.Lhs[0]).(*ast.IndexExpr)
+		if !ok {
+			return false
+		}
+		mt, ok := info.Types[ie.X].Type.Underlying().(*types.Map)
+		if !ok {
+			return false
+		}
+		b, ok := mt.Elem().Underlying().(*types.Basic)
+		return ok && b.Kind() == types.Int
+	}
+	r8names := []string{"(*recordingSpan).dedupeAttrsFromRecord", "(*recordingSpan).addOverCapAttrs"}
+	for _, nm := range r8names {
+		fn := ix.Func(nm)
 		if fn == nil {
+			// the function is gone (merged into its callers, or rewritten with another signature): the de-duplication index
+			// is then judged wherever an int-valued index map is maintained outside the other anchor
+			var found []*FuncInfo
+			for _, f := range ix.All {
+				if f.Decl == nil {
+					continue
+				}
+				other := false
+				for _, o := range r8names {
+					if g := ix.Func(o); g != nil && g == f {
+						other = true
+					}
+				}
+				has := false
+				inspectNoLit(f.Body(), func(n ast.Node) bool {
+					if isIndexStore(n) {
+						has = true
+					}
+					return !has
+				})
+				if has && !other {
+					found = append(found, f)
+				}
+			}
+			if len(found) == 0 {
+				c.Missing("R8", shortPkg(ix.Pkg.PkgPath)+"."+nm)
+				continue
+			}
+			for _, f := range found {
+				c.Analysed(f)
+				n, bad, pos := indexPairing(info, f)
+				site := at(ix.M, f.Pos())
+				if bad != "" {
+					site = at(ix.M, pos)
+				}
+				c.Check(n >= 1 && bad == "", "R8", "sdk/trace|"+nm+"|index map ← len(slice) − 1 after append (now in "+f.Name+")", site, itoa(n)+" index store(s) paired with their append",
+					"later updates of that key overwrite another attribute or index out of range: "+bad)
+			}
 			continue
 		}
+		c.Analysed(fn)
 		// the index map may be maintained in a helper the loop body was moved to
 		fn, _ = ix.workFunc(fn, func(n ast.Node) bool {
 			as, ok := n.(*ast.AssignStmt)
